@@ -38,7 +38,8 @@ if sh(["git", "status", "--porcelain", "--untracked-files=no"], "/verif").stdout
 p = sh(["git", "merge", "--no-commit", "--no-ff", br], "/verif", check=False)
 if not os.path.exists("/verif/.git/MERGE_HEAD"):
     print("verif: merge did not start:\n", p.stdout[-600:], p.stderr[-600:]); sys.exit(1)
-for f in ["MANIFEST.json", "known_findings.json", "tools/hook_commits.json", "evidence/C17.json"]:
+import glob as _glob
+for f in ["MANIFEST.json", "known_findings.json", "tools/hook_commits.json"] + [os.path.relpath(x, "/verif") for x in _glob.glob("/verif/evidence/*.json")]:
     sh(["git", "checkout", "HEAD", "--", f], "/verif", check=False)
 st = sh(["git", "status", "--short"], "/verif").stdout
 conf = [l for l in st.splitlines() if l[:2] in ("UU", "AA", "DU", "UD")]
